@@ -240,7 +240,7 @@ def run(ctx):
     pool = sorted({tuple(c) for c in k1} | {tuple(c) for c in k2 if len(c) == 2} | {tuple(c) for c in sim if len(c) >= 3})
     pool = [c for c in pool if semgen.STEPS[c[-1][0]][1] in semgen.SINKABLE]
     rnd.shuffle(pool)
-    nmulti = 120 if thorough else 30
+    nmulti = 120 if thorough else 20
     multis = []
     for i in range(nmulti):
         n = 2 + (i % 3)
@@ -248,7 +248,7 @@ def run(ctx):
         multis.append(cs)
     kinds = sorted(optlib.GLOBAL_KINDS)
     rnd.shuffle(kinds)
-    kinds = kinds[: (len(kinds) if thorough else 8)]
+    kinds = kinds[: (len(kinds) if thorough else 6)]
 
     root = os.path.join(ctx.work, "c06")
     os.makedirs(root)
